@@ -18,7 +18,8 @@ EXTENDS Integers, Sequences, FiniteSets
 
 Max2(a, b) == IF a >= b THEN a ELSE b
 Min2(a, b) == IF a <= b THEN a ELSE b
-IsInt(x) == x \in Int
+\* words are logged as integers; values of 10^9 and above encode words near 2^63 / 2^64
+IsInt(x) == x < 1000000000
 
 PullOps  == {"next", "nextid", "chunk", "bnext", "fetchn", "get"}
 CompOps  == {"foreach", "eforeach", "fold", "values", "idsvalues"}
